@@ -163,6 +163,14 @@ class LockFlow:
                 st2 = self._release(st, lock, pos)
                 return st2.setg(var or "?ul", lock, True, "unlock_guard_direct")
             return st
+        if k == "decl":
+            ini = strip(ev.get("init")) if ev.get("init") else None
+            if isinstance(ini, dict) and ini.get("k") == "call" and callee_short(ini) == "mutex" and \
+                    ini.get("recv") is not None:
+                g = st.g(P(ini["recv"]))
+                if g is not None and g[0] is not None:
+                    self.alias["*" + ev["var"]] = g[0]     # mtx = l.mutex(): *mtx is l's lock
+            return st
         if k == "dtor":
             var = ev.get("var")
             gk = guard_kind(ev.get("rec"))
@@ -514,3 +522,154 @@ def always_followed_by(fn, a_pos, b_pred, stop_pred=None):
         if PEND in bout[p]:
             ret_bad.append((p, len(blk.events)))
     return ret_bad
+
+
+# ----------------------------------------------------------------------------------------------
+# finite-domain evaluation of condition trees (K7)
+
+class Unknown(Exception):
+    pass
+
+
+def eval_tree(e, env):
+    """Evaluate an expression tree over a finite environment: env maps canonical texts (T) of
+    sub-expressions to Python values (ints for enum constants, bools).  Raises Unknown for anything
+    that is neither in env nor a constant/operator over known values."""
+    e0 = e
+    e = strip(e)
+    if not isinstance(e, dict):
+        raise Unknown(str(e))
+    t = T(e)
+    if t in env:
+        return env[t]
+    k = e.get("k")
+    if k == "lit":
+        if "v" in e:
+            return e["v"]
+        raise Unknown(t)
+    if k == "enum":
+        return e["val"]
+    if "val" in e and k in ("var", "mem", "other"):
+        return e["val"]
+    if k == "un":
+        v = eval_tree(e["e"], env)
+        if e["op"] == "!":
+            return not v
+        if e["op"] == "-":
+            return -v
+        raise Unknown(t)
+    if k == "call" and e.get("op") == "!":
+        sub = e.get("recv") if e.get("recv") is not None else e["args"][0]
+        return not eval_tree(sub, env)
+    ops = None
+    if k == "bin":
+        op, ops = e["op"], [e["l"], e["r"]]
+    elif k == "call" and e.get("op") in ("==", "!=", "<", ">", "<=", ">=", "&&", "||", "&", "|"):
+        op = e["op"]
+        ops = ([e["recv"]] if e.get("recv") is not None else []) + e.get("args", [])
+    if ops and len(ops) == 2:
+        if op == "&&":
+            return bool(eval_tree(ops[0], env)) and bool(eval_tree(ops[1], env))
+        if op == "||":
+            return bool(eval_tree(ops[0], env)) or bool(eval_tree(ops[1], env))
+        a, b = eval_tree(ops[0], env), eval_tree(ops[1], env)
+        return {"==": a == b, "!=": a != b, "<": a < b, ">": a > b, "<=": a <= b, ">=": a >= b,
+                "&": a & b, "|": a | b, "+": a + b, "-": a - b}[op] if op in ("==", "!=", "<", ">", "<=", ">=", "&", "|", "+", "-") else _unk(t)
+    if k == "cond":
+        return eval_tree(e["t"], env) if eval_tree(e["c"], env) else eval_tree(e["f"], env)
+    raise Unknown(t)
+
+
+def _unk(t):
+    raise Unknown(t)
+
+
+def return_set(fn):
+    """Set of (enum name, value) a function can return; analysis-broken if a return is not built
+    from enum constants and conditional operators."""
+    out = set()
+
+    def leaves(e):
+        e = strip(e)
+        if e.get("k") == "cond":
+            leaves(e["t"])
+            leaves(e["f"])
+        elif e.get("k") == "enum":
+            out.add((e["name"], e["val"]))
+        else:
+            raise AnalysisBroken("%s returns a non-constant (%s): return-set rule cannot be applied" % (fn.qname, T(e)))
+    n = 0
+    for b, i, ev in fn.all_events():
+        if ev.get("k") == "return" and ev.get("e") is not None:
+            leaves(ev["e"])
+            n += 1
+    if not n:
+        raise AnalysisBroken("%s has no return value" % fn.qname)
+    return out
+
+
+def first_outcome(fn, block_id, limit=20):
+    """Follow the unique-successor chain from a block: ('return', tree) at the first return,
+    ('branch', block_id) at the first conditional block, ('exit', None) at the exit."""
+    b = block_id
+    for _ in range(limit):
+        blk = fn.blocks[b]
+        for ev in blk.events:
+            if ev.get("k") == "return":
+                return ("return", ev.get("e"), ev)
+            if ev.get("k") == "throw":
+                return ("throw", None, ev)
+        if blk.term.get("noreturn"):
+            return ("noreturn", None, None)
+        succ = [(l, t) for l, t, _ in blk.succ]
+        if blk.cond is not None and len(succ) == 2:
+            return ("branch", b, None)
+        if len(succ) != 1:
+            return ("exit", None, None) if b == fn.exit else ("branch", b, None)
+        b = succ[0][1]
+    return ("unknown", None, None)
+
+
+def sccs(fn):
+    """Strongly connected components (list of sets of block ids) of the normal-edge CFG."""
+    index = {}
+    low = {}
+    stack = []
+    on = set()
+    out = []
+    counter = [0]
+    import sys
+    sys.setrecursionlimit(10000)
+
+    def strong(v):
+        index[v] = low[v] = counter[0]
+        counter[0] += 1
+        stack.append(v)
+        on.add(v)
+        for _, w in fn.succs(v):
+            if w not in index:
+                strong(w)
+                low[v] = min(low[v], low[w])
+            elif w in on:
+                low[v] = min(low[v], index[w])
+        if low[v] == index[v]:
+            comp = set()
+            while True:
+                w = stack.pop()
+                on.discard(w)
+                comp.add(w)
+                if w == v:
+                    break
+            out.append(comp)
+    for b in fn.blocks:
+        if b not in index:
+            strong(b)
+    return out
+
+
+def loop_of(fn, block_id):
+    for c in sccs(fn):
+        if block_id in c:
+            if len(c) > 1 or any(t == block_id for _, t in fn.succs(block_id)):
+                return c
+    return None
